@@ -1,5 +1,6 @@
 import MdkVerif.Model.Client
 import MdkVerif.Proofs.Client
+import MdkVerif.Props.C06Wrap
 /-
   C06 — a refused event has no effect (the frame part; absence of panics is a runtime fact that the
   harness searches for, totality of the model is NOT presented as a no-panic proof).
@@ -130,5 +131,20 @@ theorem witness_rewrapped_commit :
 /-- non-vacuity of `refuse_frame_partial`: a refused duplicate in a state with a snapshot -/
 example : isBetter wAfterGood (epochOf wGood.path) wGood = false ∧ isRefusal (deliver wAfterGood { wGood with n := 9, ts := 30 } 0).2 = true := by
   decide
+
+/-! ### the outermost layer of `process_message` (raw kind-445 event → MLS layer), several groups per client:
+    proved in Props/C06Wrap.lean over Model.Wrap, re-exported here so that they are obligations of this property -/
+theorem wrap_accept_iff : type_of% @C06Wrap.wrap_accept_iff := @C06Wrap.wrap_accept_iff
+theorem wrap_handed_iff : type_of% @C06Wrap.wrap_handed_iff := @C06Wrap.wrap_handed_iff
+theorem wrap_refuse_frame : type_of% @C06Wrap.wrap_refuse_frame := @C06Wrap.wrap_refuse_frame
+theorem wrap_refuse_frame_stored : type_of% @C06Wrap.wrap_refuse_frame_stored := @C06Wrap.wrap_refuse_frame_stored
+theorem wrap_refuse_frame_full_false : ¬ C06Wrap.wrap_refuse_frame_full := C06Wrap.wrap_refuse_frame_full_false
+theorem wrap_redeliver : type_of% @C06Wrap.wrap_redeliver := @C06Wrap.wrap_redeliver
+theorem wrap_failed_record : type_of% @C06Wrap.wrap_failed_record := @C06Wrap.wrap_failed_record
+theorem wrap_reason_table : type_of% @C06Wrap.wrap_reason_table := @C06Wrap.wrap_reason_table
+theorem wrap_no_panic_full_false : ¬ C06Wrap.wrap_no_panic_full := C06Wrap.wrap_no_panic_full_false
+theorem wrap_panic_repeats : type_of% @C06Wrap.wrap_panic_repeats := @C06Wrap.wrap_panic_repeats
+theorem wrap_no_panic_partial : type_of% @C06Wrap.wrap_no_panic_partial := @C06Wrap.wrap_no_panic_partial
+theorem wrap_no_panic_of_guard : type_of% @C06Wrap.wrap_no_panic_of_guard := @C06Wrap.wrap_no_panic_of_guard
 
 end MdkVerif.Props.C06
